@@ -66,11 +66,16 @@ Record obj : Type := {
   o_parent : option nat;
   o_contents : list nat;                (* parent.contents.values(), in order *)
   o_kind : okind;
-  o_priv : privacy;                     (* obj.privacyClass, as the real System computed it (C13's subject) *)
+  o_priv : privacy;                     (* System.privacyClass(obj), as the real System computed it (C13's subject) *)
   o_doc : bool;                         (* summary.hasdocstring *)
   o_mro : list nat;                     (* Class.mro(): in-system classes, self first *)
   o_subclasses : list nat;
   o_bases : list (option nat);          (* Class.baseobjects *)
+  o_docsource : option nat;             (* epydoc2stan.ensure_parsed_docstring(obj): the object whose docstring is shown
+                                           for obj (obj itself, or the base-class member it inherits the docstring from) *)
+  o_xrefs : list nat;                   (* ORACLE: the objects _EpydocLinker.link_xref / link_to resolved the cross
+                                           references of that docstring (and of its fields) to; any registered object *)
+  o_sum_xrefs : list nat;               (* ORACLE: same for the summary (first paragraph) of that docstring *)
   o_module : option nat                 (* obj.parentMod (Documentable.module); NOT updated for the members of a
                                            re-exported class, so it is an input and not derived from the parent chain *)
 }.
@@ -97,7 +102,12 @@ Definition name_of (r : registry) (i : nat) : text := match get r i with Some o 
 Definition contents_of (r : registry) (i : nat) : list nat := match get r i with Some o => o_contents o | None => [] end.
 Definition parent_of (r : registry) (i : nat) : option nat := match get r i with Some o => o_parent o | None => None end.
 Definition kind_of (r : registry) (i : nat) : okind := match get r i with Some o => o_kind o | None => KAttribute end.
-Definition priv_of (r : registry) (i : nat) : privacy := match get r i with Some o => o_priv o | None => HIDDEN end.
+(* Documentable.privacyClass = system.privacyClass(self), overridden by Module.privacyClass:
+   a module named `__main__` is PRIVATE whatever the rules say *)
+Definition t_main : text := [95; 95; 109; 97; 105; 110; 95; 95]%N.      (* "__main__" *)
+Definition eff_priv (o : obj) : privacy :=
+  if is_module_kind (o_kind o) && text_eqb (o_name o) t_main then PRIVATE else o_priv o.
+Definition priv_of (r : registry) (i : nat) : privacy := match get r i with Some o => eff_priv o | None => HIDDEN end.
 Definition own_page (r : registry) (i : nat) : bool := own_kind (kind_of r i).
 
 (* Documentable.fullName: None = the fuel ran out or a dangling id *)
@@ -128,7 +138,7 @@ Fixpoint visible_f (fuel : nat) (r : registry) (i : nat) : option bool :=
     match get r i with
     | None => None
     | Some o =>
-      if is_hidden (o_priv o) then Some false
+      if is_hidden (eff_priv o) then Some false
       else match o_parent o with
            | None => Some true
            | Some p => visible_f f r p
@@ -257,7 +267,8 @@ Definition P_heading : N := 1.        Definition P_sidebar_title : N := 2.  Defi
 Definition P_main_table : N := 4.     Definition P_pkginit : N := 5.        Definition P_base_table : N := 6.
 Definition P_base_name : N := 7.      Definition P_childlist : N := 8.      Definition P_known_subclasses : N := 9.
 Definition P_class_signature : N := 10. Definition P_overrides : N := 11.   Definition P_overridden_in : N := 12.
-Definition P_hierarchy : N := 13.
+Definition P_hierarchy : N := 13.     Definition P_sidebar_inherited : N := 14.
+Definition P_xref : N := 30.           Definition P_xref_summary : N := 31.
 Definition P_module_index : N := 20.  Definition P_class_index : N := 21.   Definition P_name_index : N := 22.
 Definition P_undocced : N := 23.      Definition P_index_roots : N := 24.   Definition P_alldocs : N := 25.
 Definition P_corpus : N := 26.        Definition P_inventory : N := 27.
@@ -282,6 +293,7 @@ Fixpoint obj_content (fuel : nat) (tbl : table) (r : registry) (depth level : na
   | O => []
   | S f =>
     let item c := mk page P_sidebar_item ctx (t_sidebar_private tbl && is_private r c) c in
+    let item_inh c := mk page P_sidebar_inherited ctx (t_sidebar_private tbl && is_private r c) c in
     let direct := filter (keep (t_sidebar_direct tbl) r) (contents_of r s) in
     let inh := if is_class_kind (kind_of r s)
                then filter (fun c => negb (own_page r c) && keep (t_sidebar_inherited tbl) r c) (inherited_members tbl r s)
@@ -289,7 +301,7 @@ Fixpoint obj_content (fuel : nat) (tbl : table) (r : registry) (depth level : na
     flat_map (fun c => item c ::
                 (if own_page r c && Nat.ltb (S level) depth
                  then obj_content f tbl r depth (S level) page ctx c else [])) direct
-    ++ map item inh
+    ++ map item_inh inh
   end.
 
 (* pages.get_override_info: the member overridden by `name` in the first class of mro[1:] that has it *)
@@ -340,15 +352,26 @@ Fixpoint written_f (fuel : nat) (tbl : table) (r : registry) (i : nat) : list na
   end.
 Definition written (tbl : table) (r : registry) : list nat := flat_map (written_f (fuel_of r) tbl r) (r_roots r).
 
-(* summary.moduleSummary *)
+(* Module.submodules() as summary.moduleSummary uses it *)
+Definition submodules_of (tbl : table) (r : registry) (m : nat) : list nat :=
+  filter (fun c => is_module_kind (kind_of r c) && keep (t_modsummary_sub tbl) r c) (contents_of r m).
+
+(* summary.moduleSummary: more than 50 submodules, none of which has submodules, are listed in the compact form
+   (one <span> per module, linked with page_url = the module's own url) *)
+Definition compact_listing (tbl : table) (r : registry) (subs : list nat) : bool :=
+  Nat.ltb 50 (length subs) && negb (existsb (fun s => negb (is_nil (submodules_of tbl r s))) subs).
+
 Fixpoint module_summary (fuel : nat) (tbl : table) (r : registry) (m : nat) : list entry :=
   match fuel with
   | O => []
   | S f =>
     mk f_moduleIndex P_module_index f_moduleIndex (t_modsummary_private tbl && is_private r m) m
     :: (match kind_of r m with
-        | KPackage => flat_map (module_summary f tbl r)
-                        (filter (fun c => is_module_kind (kind_of r c) && keep (t_modsummary_sub tbl) r c) (contents_of r m))
+        | KPackage =>
+          let subs := submodules_of tbl r m in
+          if compact_listing tbl r subs
+          then map (fun c => mk f_moduleIndex P_module_index (url r c) (t_modsummary_private tbl && is_private r c) c) subs
+          else flat_map (module_summary f tbl r) subs
         | _ => []
         end)
   end.
@@ -389,8 +412,35 @@ Definition summary_entries (tbl : table) (r : registry) : list entry :=
   ++ map (mk [] P_corpus [] false) (filter (keep (t_corpus tbl) r) (r_all r))
   ++ map (mk [] P_inventory [] false) (flat_map (inventory_f (fuel_of r) tbl r) (r_roots r)).
 
+(* docstring cross references.  epydoc2stan.format_docstring(i) renders the docstring with the linker of its SOURCE:
+   page_url = the url of the source's page; the result is placed on the page of i.  format_summary switches the
+   linker context to None: page_url = '' and the url is never shortened. *)
+Definition xrefs_of (r : registry) (i : nat) : list nat := match get r i with Some o => o_xrefs o | None => [] end.
+Definition sum_xrefs_of (r : registry) (i : nat) : list nat := match get r i with Some o => o_sum_xrefs o | None => [] end.
+Definition docsource_of (r : registry) (i : nat) : option nat := match get r i with Some o => o_docsource o | None => None end.
+Definition doc_ctx (r : registry) (pg : text) (i : nat) : text :=
+  match docsource_of r i with
+  | Some s => match page_obj r s with Some q => url r q | None => [] end
+  | None => pg
+  end.
+
+Definition xref_entries (tbl : table) (r : registry) (p : nat) : list entry :=
+  let pg := url r p in
+  let bl := if is_class_kind (kind_of r p) then base_lists tbl r p else [] in
+  flat_map (fun i => map (mk pg P_xref (doc_ctx r pg i) false) (xrefs_of r i)) (p :: methods_of tbl r p)
+  ++ flat_map (fun c => map (mk pg P_xref_summary [] false) (sum_xrefs_of r c))
+       (rows_of tbl r (children_of tbl r p) ++ rows_of tbl r (pkg_init_of tbl r p)
+        ++ flat_map (fun x => rows_of tbl r (snd x)) bl).
+
+Definition summary_xref_entries (tbl : table) (r : registry) : list entry :=
+  flat_map (fun e => if text_eqb (e_ctx e) f_moduleIndex
+                     then map (mk f_moduleIndex P_xref_summary [] false) (sum_xrefs_of r (e_obj e)) else [])
+           (flat_map (module_summary (fuel_of r) tbl r) (filter (keep (t_modindex_roots tbl) r) (r_roots r)))
+  ++ flat_map (fun c => map (mk f_classIndex P_xref_summary [] false) (sum_xrefs_of r c)) (class_index tbl r).
+
 Definition site_entries (tbl : table) (r : registry) (depth : nat) (nosidebar : bool) : list entry :=
-  flat_map (page_entries tbl r depth nosidebar) (written tbl r) ++ summary_entries tbl r.
+  (flat_map (page_entries tbl r depth nosidebar) (written tbl r) ++ summary_entries tbl r)
+  ++ (flat_map (xref_entries tbl r) (written tbl r) ++ summary_xref_entries tbl r).
 
 (* the href an entry carries (None = label only / not a link) *)
 Definition link_of (tbl : table) (r : registry) (e : entry) : option text :=
@@ -430,13 +480,23 @@ Definition live (tbl : table) (r : registry) (cur href : text) : bool :=
 End WithQuote.
 
 (* ------------------------------------------------------------------ decidable well-formedness (sound: Proofs/SiteProofs.wf_b_sound) *)
+(* o is reached from a root through contents, decided by walking up the parent chain *)
+Fixpoint reach_up (fuel : nat) (r : registry) (i : nat) : bool :=
+  match fuel with
+  | O => false
+  | S f => match parent_of r i with
+           | None => existsb (Nat.eqb i) (r_roots r)
+           | Some p => existsb (Nat.eqb i) (contents_of r p) && reach_up f r p
+           end
+  end.
+
 Definition wf_b (r : registry) : bool :=
   let n := length (r_objs r) in
   forallb (fun i => match parent_of r i with Some p => Nat.ltb p i && own_page r p | None => true end) (seq 0 n)
   && forallb (fun p => forallb (fun c => Nat.ltb c n && match parent_of r c with Some q => Nat.eqb q p | None => false end)
                                (contents_of r p)) (seq 0 n)
   && forallb (fun o => Nat.ltb o n && match parent_of r o with None => true | Some _ => false end && own_page r o) (r_roots r)
-  && forallb (fun c => match module_of r c with Some m => own_page r m | None => true end) (seq 0 n).
+  && forallb (fun c => match module_of r c with Some m => own_page r m && reach_up (S n) r m | None => true end) (seq 0 n).
 
 
 (* ------------------------------------------------------------------ urllib.parse.quote (safe = '/'), concrete *)
@@ -470,6 +530,9 @@ Definition dec_obj (s : sexp) : obj :=
      o_mro := map to_nat (to_list (nth_s 6 s));
      o_subclasses := map to_nat (to_list (nth_s 7 s));
      o_bases := map (to_option to_nat) (to_list (nth_s 8 s));
+     o_docsource := to_option to_nat (nth_s 10 s);
+     o_xrefs := map to_nat (to_list (nth_s 11 s));
+     o_sum_xrefs := map to_nat (to_list (nth_s 12 s));
      o_module := to_option to_nat (nth_s 9 s) |}.
 Definition dec_registry (s : sexp) : registry :=
   {| r_objs := map dec_obj (to_list (nth_s 0 s));
